@@ -27,6 +27,8 @@ CONSTANTS Keys,        \* key names
           AllOrders,   \* TRUE: compaction explores every map-iteration order
           IdleExpire,  \* TRUE: maxIdleTableTimeout = 0 (recycled tables are freed at once)
           FixD1, FixD2, FixD3, FixD4, FixD5, FixD6, FixD21,
+          DstMax,      \* > 0: the receiver of transferred tables cannot store entries of this size or more (smaller tables)
+          FixD35,      \* TRUE: an import whose merge function failed fails, and the sender keeps its table
           Export       \* TRUE: print one operation path per distinct state
 
 VARIABLES tabs, nextCf, byCf, ref, dst, nops, ver, log
@@ -202,15 +204,23 @@ Transfer ==
   /\ nops < MaxOps /\ Exportable # {}
   /\ LET j == Min(Exportable)
          t == tabs[j]
-         arriving == [k \in DOMAIN t.idx |-> t.mem[t.idx[k]]] IN
-     /\ dst' = [k \in Keys |-> IF k \in DOMAIN arriving /\ arriving[k].ts >= dst[k].ts
-                               THEN [ver |-> arriving[k].ver, size |-> arriving[k].size,
-                                     ttl |-> arriving[k].ttl, ts |-> arriving[k].ts]
-                               ELSE dst[k]]
-     /\ tabs' = RemoveAt(tabs, j)
-     /\ byCf' = byCf \ {t.cf}
-     \* the abstract store loses exactly the keys whose current version was in that table
-     /\ ref' = [k \in Keys |-> IF k \in DOMAIN t.idx /\ Holder(tabs, k) = j THEN Absent ELSE ref[k]]
+         arriving == [k \in DOMAIN t.idx |-> t.mem[t.idx[k]]]
+         refused == {k \in DOMAIN arriving : DstMax > 0 /\ arriving[k].size >= DstMax}
+         Merge(S) == [k \in Keys |-> IF k \in S /\ arriving[k].ts >= dst[k].ts
+                                     THEN [ver |-> arriving[k].ver, size |-> arriving[k].size,
+                                           ttl |-> arriving[k].ttl, ts |-> arriving[k].ts]
+                                     ELSE dst[k]]
+         Dropped == /\ tabs' = RemoveAt(tabs, j)
+                    /\ byCf' = byCf \ {t.cf}
+                    \* the abstract store loses exactly the keys whose current version was in that table
+                    /\ ref' = [k \in Keys |-> IF k \in DOMAIN t.idx /\ Holder(tabs, k) = j THEN Absent ELSE ref[k]] IN
+     IF refused = {}
+     THEN dst' = Merge(DOMAIN arriving) /\ Dropped
+     ELSE \* Import hands the entries over one by one, in the order of a Go map, and stops at the first one the
+          \* receiver cannot store: any subset of the others may have arrived by then
+          \E S \in SUBSET (DOMAIN arriving \ refused) :
+             /\ dst' = Merge(S)
+             /\ IF FixD35 THEN UNCHANGED <<tabs, byCf, ref>> ELSE Dropped
   /\ nops' = nops + 1 /\ Logged([op |-> "xfer"])
   /\ UNCHANGED <<nextCf, ver>>
 
@@ -303,4 +313,7 @@ Next == \/ \E k \in Keys, sz \in Sizes : Put(k, sz, FALSE) \/ Put(k, sz, TRUE) \
         \/ CompactionStep
         \/ Transfer
 Spec == Init /\ [][Next]_vars
+\* a key leaves the sender with a transferred table only if the receiver holds that version or a newer one (D35)
+TransferSafe == [][\A k \in Keys : (ref[k] # Absent /\ ref'[k] = Absent /\ Len(tabs') < Len(tabs))
+                                    => (dst'[k] # Absent /\ dst'[k].ts >= ref[k].ts)]_vars
 =============================================================================
